@@ -94,12 +94,25 @@ def split_batch_scenario(coll, stats):
     between the pair."""
     from vf.checks import c09_pipeline as CP
     from django_evolution import management
-    for deps in ([(('va', 'a2'), ('AFTER_MIGRATIONS',
-                                  ('vm', '0002_add_x')))],
-                 [(('va', 'a1'), ('BEFORE_MIGRATIONS',
-                                  ('vm', '0001_initial')))],
-                 []):
+    for deps, shared in (
+            ([(('va', 'a2'), ('AFTER_MIGRATIONS', ('vm', '0002_add_x')))],
+             False),
+            ([(('va', 'a1'), ('BEFORE_MIGRATIONS', ('vm', '0001_initial')))],
+             False),
+            ([], False),
+            # the other app's evolution carries the label of va's LATER one
+            ([(('va', 'a2'), ('AFTER_MIGRATIONS', ('vm', '0002_add_x')))],
+             True),
+            # ... and is forced into va's FIRST batch
+            ([(('va', 'a2'), ('AFTER_MIGRATIONS', ('vm', '0002_add_x'))),
+              (('vab', 'b1'), ('BEFORE_MIGRATIONS',
+                               ('vm', '0001_initial')))], True),
+            ([(('va', 'a2'), ('AFTER_MIGRATIONS', ('vm', '0002_add_x'))),
+              (('vab', 'b1'), ('BEFORE_MIGRATIONS',
+                               ('vm', '0001_initial')))], False),
+            ([], True)):
         img = CP.start_image(False)
+        CP.VAB_LABEL[0] = 'a2' if shared else 'b1'
         CP.install(2, deps)
         B.restore(img, 'default')
         B.reset_globals()
@@ -109,7 +122,8 @@ def split_batch_scenario(coll, stats):
         with O.SignalLog(seq) as log:
             res = D.d2_all(tracer=tracer)
         stats['extra_runs'] += 1
-        replay = {'scenario': 'split-batches', 'deps': str(deps)}
+        replay = {'scenario': 'split-batches', 'deps': str(deps),
+                  'shared_label': shared}
         if not res.ok:
             coll.add('C17|split-batch-run-fails|%s' % res.exc_type, replay,
                      {'error': str(res.exc)[:200]})
@@ -142,6 +156,7 @@ def split_batch_scenario(coll, stats):
                          'split-batches', replay,
                          {'carried': carried, 'executed': executed})
                 break
+    CP.VAB_LABEL[0] = 'b1'
 
 
 def handover_scenarios(coll, stats, tier):
